@@ -489,7 +489,7 @@ Proof.
   intros f H Hn. destruct (const_token (CFloat f) H) as [K _]. unfold kind_in in K |- *.
   apply andb_true_iff in K. destruct K as [K1 K2]. rewrite K2, andb_true_r.
   unfold const_tok in *. cbn [PatternSyntax.pr_const tk] in *. rewrite print_float_rep, Hn. cbn [List.app].
-  cbn [const_ok] in H. apply fnorm_b_spec in H. destruct H as [Hi _].
+  cbn [const_ok] in H. apply andb_true_iff in H. destruct H as [H _]. apply fnorm_b_spec in H. destruct H as [Hi _].
   pose proof (or0_head_digit (f_ip f) (46 :: or0 (f_fp f)) Hi) as Hh.
   destruct (or0 (f_ip f) ++ 46 :: or0 (f_fp f)) as [|c r]; [contradiction|].
   destruct (is_digit_not_sign c Hh) as [A _]. unfold num_kind. rewrite A. reflexivity.
@@ -508,19 +508,19 @@ Proof.
   - apply orb_true_iff in H. destruct H as [H|H].
     + destruct c as [| |z| | | | |]; try discriminate H. cbn [nonneg_int] in H.
       rewrite (tok_of_const_leaf (CInt z) eq_refl) in U. inversion U; subst q'.
-      destruct (const_token (CInt z) eq_refl) as [_ [_ V]].
+      destruct (const_token (CInt z) eq_refl) as [_ [S V]].
       cbn [wf_qual yield_qual mc_qual sem_qual sv_qual PatternSyntax.pr_qual ma_qual].
       rewrite (kind_in_weaken _ [KIntPos] [KIntPos; KFloatPos] (nonneg_tok z H)),
-              (const_meaning (CInt z) eq_refl), V, !toks_of_app, (pr_const_leaf (CInt z) eq_refl);
+              (const_meaning (CInt z) eq_refl), S, V, !toks_of_app, (pr_const_leaf (CInt z) eq_refl);
         [repeat split; reflexivity|].
       intros k. destruct k; cbn; intros E; try discriminate; reflexivity.
     + destruct c as [| | |f| | | |]; try discriminate H. cbn [pos_float] in H.
       apply andb_true_iff in H. destruct H as [Ho Hn]. apply negb_true_iff in Hn.
       rewrite (tok_of_const_leaf (CFloat f) Ho) in U. inversion U; subst q'.
-      destruct (const_token (CFloat f) Ho) as [_ [_ V]].
+      destruct (const_token (CFloat f) Ho) as [_ [S V]].
       cbn [wf_qual yield_qual mc_qual sem_qual sv_qual PatternSyntax.pr_qual ma_qual].
       rewrite (kind_in_weaken _ [KFloatPos] [KIntPos; KFloatPos] (posfloat_tok f Ho Hn)),
-              (const_meaning (CFloat f) Ho), V, !toks_of_app, (pr_const_leaf (CFloat f) Ho);
+              (const_meaning (CFloat f) Ho), S, V, !toks_of_app, (pr_const_leaf (CFloat f) Ho);
         [repeat split; reflexivity|].
       intros k. destruct k; cbn; intros E; try discriminate; reflexivity.
   - apply andb_true_iff in H. destruct H as [H Hb2]. apply andb_true_iff in H. destruct H as [H Hb1].
